@@ -237,6 +237,7 @@ def step (line : String) : String :=
   | "env.write" :: args => envWriteOp args
   | "serve" :: args => ProtoOps.serveOp args
   | "cdec" :: args => ProtoOps.cdecOp args
+  | "hreq" :: args => ProtoOps.hreqOp args
   | "disp" :: args => dispOp args
   | ["path", h] => match hexArg h with
     | some b => hexOut (extractProtoPath b)
